@@ -73,8 +73,7 @@ Proof.
 Qed.
 
 (** transactions used below *)
-Definition bk_tx (w : world) (sender target : addr) (m : wasm_msg) (funds : list coin) :=
-  run tx_fuel w [(sender, MWasm target m funds)] [].
+Notation bk_tx w sender target m funds := (run tx_fuel w [(sender, MWasm target m funds)] []).
 
 Definition tx_ok_pricing (r : result (world * list (addr * cmsg))) : bool :=
   match r with Some (_, tr) => existsb is_pricing_msg tr | None => false end.
@@ -179,3 +178,91 @@ Example bk_remove_noredel :
   | None => False
   end.
 Proof. vm_compute. auto. Qed.
+
+(** the boolean check [gift_free] implies the side conditions of [tx_liquid_ge] / [tx_liquid_eq] *)
+Lemma gift_free_ok sm : gift_free sm = true -> not_withdraw sm /\ no_gift sm.
+Proof.
+  destruct sm as [s m]. unfold gift_free, not_withdraw, no_gift. cbn [fst snd].
+  destruct m; intros H.
+  - apply andb_true_iff in H. destruct H as [H H3]. apply andb_true_iff in H. destruct H as [H1 H2].
+    split; [|split].
+    + intros f E. inversion E; subst. rewrite N.eqb_refl in H3. discriminate H3.
+    + intros ->. rewrite N.eqb_refl in H1. cbn [negb orb] in H1. apply orb_true_iff in H1.
+      destruct H1 as [H1|H1]; [left; apply N.eqb_eq; exact H1|right].
+      destruct m as [hm| | | | | |]; try discriminate H1. exists hm. split; [reflexivity|].
+      destruct hm; try discriminate H1; unfold is_bond_msg; auto.
+    + intros ->. rewrite N.eqb_refl in H2. cbn [negb orb] in H2.
+      destruct m as [| | | | |sm|]; try exact I. destruct sm as [from target rc].
+      apply negb_true_iff, andb_false_iff in H2. intros E.
+      destruct rc as [x|]; injection E as E1 E2; subst; rewrite !N.eqb_refl in H2; destruct H2 as [H2|H2]; discriminate H2.
+  - split; [intros f E; discriminate E|]. intros ->. rewrite N.eqb_refl in H. cbn [negb orb] in H.
+    apply N.eqb_eq. exact H.
+  - split; [intros f E; discriminate E|exact I].
+  - split; [intros f E; discriminate E|exact I].
+  - split; [intros f E; discriminate E|exact I].
+  - split; [intros f E; discriminate E|exact I].
+  - split; [intros f E; discriminate E|]. apply negb_true_iff, N.eqb_neq in H. exact H.
+Qed.
+
+Lemma tx_gift_free_ok w sender target m funds w' tr :
+  run tx_fuel w [(sender, MWasm target m funds)] [] = Some (w', tr) ->
+  forallb gift_free tr = true -> Forall (fun sm => not_withdraw sm /\ no_gift sm) tr.
+Proof.
+  intros _ H. apply Forall_forall. intros sm Hi. apply gift_free_ok.
+  rewrite forallb_forall in H. apply H. exact Hi.
+Qed.
+
+(** non-vacuity of [tx_liquid_eq] beyond bonds: the index update (which withdraws staking rewards,
+    swaps, pays the keeper and re-bonds), a conversion and a validator removal leave the hub's liquid
+    balance unchanged in the example world *)
+Example bk_update_global_liquid w' tr :
+  run tx_fuel bk_w0 [(13, MWasm A_hub (WHub (HUpdateGlobal 0)) [])] [] = Some (w', tr) ->
+  bal (w_env w') A_hub usei = bal (w_env bk_w0) A_hub usei.
+Proof.
+  intros H.
+  refine (tx_liquid_eq bk_w0 13 A_hub (WHub (HUpdateGlobal 0)) [] w' tr
+            (bk_underlying bk_w0 (or_introl eq_refl)) bk_w0_norewards (fun _ => eq_refl) H _).
+  apply (tx_gift_free_ok _ _ _ _ _ _ _ H).
+  pose proof (proj1 bk_other_txs_gift_free) as G. unfold tx_gift_free in G.
+  rewrite H in G. exact G.
+Qed.
+
+Example bk_remove_liquid w' tr :
+  run tx_fuel bk_w0 [(A_owner, MWasm A_reg (WReg (GRemove 1)) [])] [] = Some (w', tr) ->
+  bal (w_env w') A_hub usei = bal (w_env bk_w0) A_hub usei.
+Proof.
+  intros H.
+  refine (tx_liquid_eq bk_w0 A_owner A_reg (WReg (GRemove 1)) [] w' tr
+            (bk_underlying bk_w0 (or_introl eq_refl)) bk_w0_norewards (fun _ => eq_refl) H _).
+  apply (tx_gift_free_ok _ _ _ _ _ _ _ H).
+  pose proof (proj2 (proj2 bk_other_txs_gift_free)) as G. unfold tx_gift_free in G.
+  rewrite H in G. exact G.
+Qed.
+
+(** [tx_gap_preserved] / [remove_tx_gap]: hypotheses hold in [bk_w0] *)
+Example bk_gap_hyps :
+  exists h, w_hub bk_w0 = Some h /\ hp_underlying (h_params h) = usei /\
+            booked h <= delegated (w_env bk_w0) A_hub.
+Proof.
+  destruct (w_hub bk_w0) as [h|] eqn:Hh; [|vm_compute in Hh; discriminate Hh].
+  exists h. split; [reflexivity|]. split; [apply (bk_underlying bk_w0 (or_introl eq_refl)); exact Hh|].
+  apply bk_w0_books. exact Hh.
+Qed.
+
+(** [NoSurplus] holds in the example worlds (in the slashed one strictly: 2 900 000 < 3 000 000), so
+    [tx_books_exact_after_pricing] applies: after the Unbond the books equal the delegations *)
+Lemma bk_ws_nosurplus : NoSurplus bk_ws.
+Proof.
+  split; [apply bk_ws_entwf|]. intros h Hh.
+  split; [apply (bk_underlying bk_ws (or_intror eq_refl)); exact Hh|].
+  vm_compute in Hh. inversion Hh; subst h. vm_compute. intros E; discriminate E.
+Qed.
+
+Example bk_unbond_exact w' tr h' :
+  run tx_fuel bk_ws [(bk_alice, MWasm A_bsei (WCw20 (CSend A_hub 1000 HkUnbond)) [])] [] = Some (w', tr) ->
+  w_hub w' = Some h' -> booked h' = delegated (w_env w') A_hub.
+Proof.
+  intros H Hh.
+  refine (tx_books_exact_after_pricing bk_ws bk_alice A_bsei _ [] w' tr h' bk_ws_entwf bk_ws_nosurplus H _ Hh).
+  eapply pricing_in_trace; [eapply token_send_reaches_hub; [left; reflexivity|exact H]|reflexivity].
+Qed.
